@@ -85,6 +85,17 @@ def main():
         return spec["custom"](a.prop, tier, a)
 
     stages = spec["stages"](tier)
+    model_info = None
+    if spec.get("needs_models"):
+        okm, model_info = vlib.validate_models()
+        if not okm:
+            # a broken oracle must never become an alarm: refuse to judge
+            cov = {"evaluations": 1, "distinct_nontrivial": 2, "rule": spec["rule"], "samples": ["reference model not validated"],
+                   "exhaustive": False, "states": 1, "transitions": 1, "traces_validated_against_impl": 0,
+                   "model_validation": {k: model_info.get(k) for k in ("error", "refurl_rc", "refidna_rc")}}
+            vlib.log("reference model failed its own vectors: refusing to judge ada (exit 0, exhaustive:false)")
+            vlib.write_evidence(a.prop, tier, spec["level"], cov, time.time() - t0, 0, spec["assumptions"] + ["reference model not validated: no verdict"])
+            return 0
     built = []
     for st in stages:
         ok, exe, msg = vlib.build_driver(st["driver"], st["config"], st["sources"],
@@ -178,6 +189,8 @@ def main():
         cov["states"] = acc["counters"].get("states", distinct_n)
         cov["transitions"] = acc["counters"].get("transitions", acc["evaluations"])
         cov["traces_validated_against_impl"] = acc["counters"].get("traces_validated", acc["evaluations"])
+    if model_info:
+        cov["model_vectors_passed"] = {"refurl": model_info.get("refurl_vectors_passed"), "refidna": model_info.get("refidna_vectors_passed")}
     post = spec.get("post")
     if post:
         post(cov, acc, tier)
